@@ -55,6 +55,28 @@ class C13(Property):
                         s.tick(dt)
             s.add("S.1")
             out.append(s.line())
+        # "... until S stays silent for the switch timeout": a host that keeps talking stays learned - S is learned at t0, talks again at
+        # t0+k (k below the timeout), and a frame to S in the window (t0+timeout, t0+k+timeout] must still go to its peer only
+        for _ in range(40 if thorough else 10):
+            mode = rng.choice(["tap-switch", "tap-normal"])
+            s = nu.Scenario()
+            for i in (1, 2, 3):
+                s.node(i, mode=mode, st=st)
+            s.add("C.2.1", "A", "C.3.1", "A")
+            s.tick(3)
+            host = nu.mac(rng.choice([1, 41]))
+            vlan = rng.choice(VLANS)
+            s.add("P.1.%s" % nu.eth_frame(b"\xff" * 6, host, vlan), "A", "O.1", "O.2", "O.3")
+            k = rng.randrange(2, st)
+            s.tick(k)
+            s.add("P.1.%s" % nu.eth_frame(rng.choice([b"\xff" * 6, nu.mac(2)]), host, vlan), "A", "O.1", "O.2", "O.3")
+            s.tick(st - k + rng.randrange(1, k))             # now in (t0 + st, t0 + k + st)
+            for src in (2, 3):
+                s.add("P.%d.%s" % (src, nu.eth_frame(host, nu.mac(src), vlan)), "A", "O.1", "O.2", "O.3")
+            s.tick(st + 2)                                     # ... and after real silence it is forgotten again
+            s.add("P.2.%s" % nu.eth_frame(host, nu.mac(2), vlan), "A", "O.1", "O.2", "O.3")
+            s.add("S.1")
+            out.append(s.line())
         # "... or P disconnects": a peer that taught addresses falls silent and is timed out (peer timeout far below the
         # switch timeout), or is removed by the handshake housekeeping; frames for its addresses must be flooded again
         for _ in range(60 if thorough else 12):
